@@ -1,0 +1,163 @@
+//go:build verif
+
+// Contracts for the deductive verification kept in /verif (govc). This file is
+// compiled only with the "verif" build tag and contains no code: every
+// contract lives in a comment block and is read by the verifier together with
+// the real source of this package.
+
+package version
+
+/*@
+
+// ---------- specification: dpkg / Debian Policy 5.6.12 version order ----------
+
+pure func isdig(c int) bool { 48 <= c && c <= 57 }
+pure func isalpha(c int) bool { (97 <= c && c <= 122) || (65 <= c && c <= 90) }
+
+// weight of one character in a non-digit run: digits and end-of-string weigh 0, letters their
+// ASCII code, '~' -1, everything else ASCII+256
+pure func ord(c int) int { isdig(c) ? 0 : (isalpha(c) ? c : (c == 126 ? -1 : (c != 0 ? c + 256 : 0))) }
+
+// value of a digit character (0 for anything else)
+pure func dv(c int) int { isdig(c) ? c - 48 : 0 }
+
+// end of the maximal non-digit run starting at i
+pure func nde(s string, i int) int
+  decreases len(s) - i
+  { 0 <= i && i < len(s) && !isdig(s[i]) ? nde(s, i+1) : i }
+
+// end of the maximal digit run starting at i
+pure func de(s string, i int) int
+  decreases len(s) - i
+  { 0 <= i && i < len(s) && isdig(s[i]) ? de(s, i+1) : i }
+
+// weight of position i of a non-digit run ending at e (an exhausted run weighs 0)
+pure func wt(s string, i int, e int) int { i < e ? ord(s[i]) : 0 }
+
+// first difference of the weight sequences of two non-digit runs
+pure func lex(a string, i int, ie int, b string, j int, je int) int
+  decreases max(ie - i, 0) + max(je - j, 0)
+  { (i >= ie && j >= je) ? 0 :
+    (wt(a, i, ie) != wt(b, j, je) ? wt(a, i, ie) - wt(b, j, je) : lex(a, i+1, ie, b, j+1, je)) }
+
+// numeric value of the digit string s[lo:hi] as an unbounded integer
+pure func val(s string, lo int, hi int) int
+  decreases hi - lo
+  { hi <= lo ? 0 : 10 * val(s, lo, hi-1) + dv(s[hi-1]) }
+
+auto lemma nde_bounds(s string, i int)
+  ensures i <= nde(s, i)
+  ensures 0 <= i && i <= len(s) ==> nde(s, i) <= len(s)
+  decreases len(s) - i
+  trigger nde(s, i)
+  { if 0 <= i && i < len(s) && !isdig(s[i]) { nde_bounds(s, i+1) } }
+
+auto lemma de_bounds(s string, i int)
+  ensures i <= de(s, i)
+  ensures 0 <= i && i <= len(s) ==> de(s, i) <= len(s)
+  decreases len(s) - i
+  trigger de(s, i)
+  { if 0 <= i && i < len(s) && isdig(s[i]) { de_bounds(s, i+1) } }
+
+// the order on upstream versions / revisions: runs are determined first, then compared
+pure func vcmp(a string, i int, b string, j int) int
+  decreases (len(a) - i) + (len(b) - j)
+  { !(0 <= i && i <= len(a) && 0 <= j && j <= len(b)) || (i >= len(a) && j >= len(b)) ? 0 :
+    (let ie = nde(a, i) in let je = nde(b, j) in
+     let r = lex(a, i, ie, b, j, je) in
+     r != 0 ? sgn(r) :
+     (let i2 = de(a, ie) in let j2 = de(b, je) in
+      let d = val(a, ie, i2) - val(b, je, j2) in
+      d != 0 ? sgn(d) : vcmp(a, i2, b, j2))) }
+
+pure func nonul(s string) bool { forall k int :: 0 <= k && k < len(s) ==> s[k] != 0 }
+
+// the order on whole versions: epoch, then upstream, then revision
+pure func vspec(a Version, b Version) int
+  { a.Epoch > b.Epoch ? 1 : (a.Epoch < b.Epoch ? -1 :
+    (vcmp(a.Version, 0, b.Version, 0) != 0 ? vcmp(a.Version, 0, b.Version, 0) : vcmp(a.Revision, 0, b.Revision, 0))) }
+
+// ---------- lemmas about the specification ----------
+
+lemma val_nonneg(s string, lo int, hi int)
+  ensures val(s, lo, hi) >= 0
+  decreases max(hi - lo, 0)
+  { if hi > lo { val_nonneg(s, lo, hi-1) } }
+
+lemma val_mono(s string, lo int, mid int, hi int)
+  requires lo <= mid && mid <= hi
+  ensures val(s, lo, mid) <= val(s, lo, hi)
+  decreases hi - mid
+  { if mid < hi { val_mono(s, lo, mid, hi-1); val_nonneg(s, lo, hi-1) } }
+
+lemma peel_zero(s string, lo int, hi int)
+  requires lo < hi && dv(s[lo]) == 0
+  ensures val(s, lo, hi) == val(s, lo+1, hi)
+  decreases hi - lo
+  { if hi > lo + 1 { peel_zero(s, lo, hi-1) } }
+
+// an (m+1)-digit number without leading zero exceeds any m-digit number
+lemma longer_wins(a string, i int, b string, j int, m int)
+  requires m >= 0 && dv(a[i]) >= 1
+  ensures val(a, i, i+m+1) > val(b, j, j+m)
+  decreases m
+  { if m > 0 { longer_wins(a, i, b, j, m-1) } }
+
+// ---------- contracts on the code ----------
+
+func cisdigit
+  ensures result == isdig(r)
+
+func cisalpha
+  ensures result == isalpha(r)
+
+func order
+  ensures result == ord(r)
+
+func verrevcmp
+  requires nonul(a) && nonul(b)
+  ensures sgn(result) == vcmp(a, 0, b, 0)
+    by {
+      longer_wins(a, at(L5.entry, i), b, at(L5.entry, j), j - at(L5.entry, j))
+      longer_wins(b, at(L5.entry, j), a, at(L5.entry, i), i - at(L5.entry, i))
+      val_mono(a, at(L5.entry, i), i + 1, de(a, at(L5.entry, i)))
+      val_mono(b, at(L5.entry, j), j + 1, de(b, at(L5.entry, j)))
+    }
+  ensures -767 <= result && result <= 767
+  loop 1:
+    invariant 0 <= i && i <= len(a) && 0 <= j && j <= len(b)
+    invariant vcmp(a, 0, b, 0) == vcmp(a, i, b, j)
+    decreases len(a) - i + len(b) - j
+  loop 2:
+    invariant entry(i) <= i && i <= nde(a, entry(i)) && entry(j) <= j && j <= nde(b, entry(j))
+    invariant nde(a, i) == nde(a, entry(i)) && nde(b, j) == nde(b, entry(j))
+    invariant lex(a, entry(i), nde(a, entry(i)), b, entry(j), nde(b, entry(j))) == lex(a, i, nde(a, entry(i)), b, j, nde(b, entry(j)))
+    decreases len(a) - i + len(b) - j
+  loop 3:
+    invariant entry(i) <= i && i <= de(a, entry(i))
+    invariant de(a, i) == de(a, entry(i))
+    invariant val(a, i, de(a, entry(i))) == val(a, entry(i), de(a, entry(i)))
+      by { peel_zero(a, i - 1, de(a, entry(i))) }
+    decreases len(a) - i
+  loop 4:
+    invariant entry(j) <= j && j <= de(b, entry(j))
+    invariant de(b, j) == de(b, entry(j))
+    invariant val(b, j, de(b, entry(j))) == val(b, entry(j), de(b, entry(j)))
+      by { peel_zero(b, j - 1, de(b, entry(j))) }
+    decreases len(b) - j
+  loop 5:
+    invariant entry(i) <= i && i <= de(a, entry(i)) && entry(j) <= j && j <= de(b, entry(j))
+    invariant de(a, i) == de(a, entry(i)) && de(b, j) == de(b, entry(j))
+    invariant i - entry(i) == j - entry(j)
+    invariant -9 <= first_diff && first_diff <= 9
+    invariant sgn(val(a, entry(i), i) - val(b, entry(j), j)) == sgn(first_diff)
+    decreases len(a) - i
+
+func Compare
+  requires nonul(a.Version) && nonul(b.Version) && nonul(a.Revision) && nonul(b.Revision)
+  ensures sgn(result) == vspec(a, b)
+
+property C01: cisdigit, cisalpha, order, verrevcmp, Compare,
+  lemma val_nonneg, lemma val_mono, lemma peel_zero, lemma longer_wins
+
+@*/
